@@ -774,3 +774,321 @@ func init() {
 		}
 	}
 }
+
+func init() {
+	// C12: stored-byte damage on a small database
+	generators["C12"] = func(c *Case, rng *vrt.Rand, tier string) func(r *Runner, i int) *Op {
+		c.Arm = "damage"
+		c.Cfg = genConfig(rng, true)
+		c.Cfg.IO = byte(rng.Pick([]int{4, 1}))
+		if c.Cfg.FileSize < 200 {
+			c.Cfg.FileSize = 200
+		}
+		c.Knobs = map[string]int{"flipall": 256, "flips": 120, "overwrites": 30, "truncspan": 120}
+		if tier == "thorough" {
+			c.Knobs = map[string]int{"flipall": 4096, "flips": 600, "overwrites": 150, "truncspan": 400}
+		}
+		s := newSwarm(rng, []string{"put", "del", "batch"}, 10)
+		s.W["put"] += 5
+		s.ValW = []int{1, 6, 2, 0, 0, 0, 0}
+		if rng.Chance(0.25) {
+			s.ValW[4] = 2 // a record near / across a block boundary
+		}
+		if rng.Chance(0.1) {
+			s.ValW[5] = 1 // a multi-chunk record
+		}
+		s.Steps = rng.Range(2, 9)
+		plain := s.genPlain(rng, func() *Config { cfg := c.Cfg; return &cfg })
+		tail := 0
+		wantMerge := rng.Chance(0.3)
+		wantRestart := rng.Chance(0.3)
+		return func(r *Runner, i int) *Op {
+			if op := plain(r, i); op != nil {
+				return op
+			}
+			tail++
+			switch {
+			case tail == 1 && wantMerge:
+				return &Op{K: "merge", Dt: 1000000} // finished but unadopted: the next Open reads the hint file
+			case tail == 2 && wantMerge && wantRestart:
+				cfg := c.Cfg
+				return &Op{K: "restart", Cfg: &cfg, Dt: 1000000} // adopted: hinted files are not scanned at Open
+			case tail == 3 && wantMerge && wantRestart:
+				k := s.key(rng)
+				return &Op{K: "put", Key: k, Val: s.val(rng, r, len(k)), Dt: 1000}
+			}
+			return nil
+		}
+	}
+}
+
+// ---- concurrent arms: programs are generated up front (they cannot adapt to a state that depends on the schedule)
+
+func genPolicy(rng *vrt.Rand) vrt.Policy {
+	p := vrt.Policy{Seed: rng.Uint64()}
+	switch rng.Intn(5) {
+	case 0:
+		p.Mode = "random"
+	case 1, 2:
+		p.Mode = "sticky"
+		p.Sticky = []float64{0.5, 0.8, 0.9, 0.97}[rng.Intn(4)]
+	default:
+		p.Mode = "pct"
+		p.Depth = rng.Range(1, 4)
+		p.Horizon = rng.Range(20, 400)
+	}
+	return p
+}
+
+func smallVal(rng *vrt.Rand, tag *uint32) *Val {
+	*tag++
+	n := rng.Range(1, 40)
+	if rng.Chance(0.1) {
+		n = rng.Range(100, 700)
+	}
+	if rng.Chance(0.03) {
+		n = 0
+	}
+	return &Val{Len: n, Tag: *tag}
+}
+
+func concConfig(rng *vrt.Rand) Config {
+	c := genConfig(rng, true)
+	c.FileSize = []int64{200, 512, 1024, 4096, 1 << 20}[rng.Intn(5)]
+	if c.Shards > 16 {
+		c.Shards = 16
+	}
+	if rng.Chance(0.8) {
+		c.IO = 0
+	}
+	return c
+}
+
+func genSetup(rng *vrt.Rand, keys [][]byte, tag *uint32) []Op {
+	var ops []Op
+	for _, k := range keys {
+		if rng.Chance(0.6) {
+			ops = append(ops, Op{K: "put", Key: k, Val: smallVal(rng, tag)})
+		}
+	}
+	if rng.Chance(0.2) {
+		ops = append(ops, Op{K: "merge"})
+	}
+	return ops
+}
+
+func init() {
+	// C08: linearizability of Put/Get/Delete and live == restart
+	generators["C08"] = func(c *Case, rng *vrt.Rand, tier string) func(r *Runner, i int) *Op {
+		c.Arm = "conc"
+		c.Cfg = concConfig(rng)
+		c.Sched = genPolicy(rng)
+		var tag uint32
+		keys := genKeys(rng, rng.Range(1, 3))
+		c.Setup = genSetup(rng, keys, &tag)
+		n := rng.Pick([]int{0, 0, 6, 4, 3, 1, 1, 0, 1})
+		if n < 2 {
+			n = 2
+		}
+		if rng.Chance(0.04) {
+			n = rng.Range(9, 16)
+		}
+		c.Clients = make([][]Op, n)
+		for ci := range c.Clients {
+			m := rng.Range(2, 8)
+			for j := 0; j < m; j++ {
+				k := keys[rng.Intn(len(keys))]
+				switch x := rng.Intn(10); {
+				case x < 5:
+					c.Clients[ci] = append(c.Clients[ci], Op{K: "put", Key: k, Val: smallVal(rng, &tag)})
+				case x < 7:
+					c.Clients[ci] = append(c.Clients[ci], Op{K: "del", Key: k})
+				default:
+					c.Clients[ci] = append(c.Clients[ci], Op{K: "get", Key: k})
+				}
+			}
+		}
+		if rng.Chance(0.25) {
+			c.Clients = append(c.Clients, []Op{{K: "merge"}})
+		}
+		return nil
+	}
+	// C09: every public call, concurrently (built with the race detector)
+	generators["C09"] = func(c *Case, rng *vrt.Rand, tier string) func(r *Runner, i int) *Op {
+		c.Arm = "conc"
+		c.Cfg = concConfig(rng)
+		c.Cfg.Index = int8(rng.Pick([]int{0, 3, 1, 1})) // B-tree (clone path) most often
+		c.Sched = genPolicy(rng)
+		var tag uint32
+		keys := genKeys(rng, rng.Range(1, 5))
+		c.Setup = genSetup(rng, keys, &tag)
+		n := rng.Range(2, 5)
+		if rng.Chance(0.05) {
+			n = rng.Range(6, 16)
+		}
+		kinds := []string{"put", "get", "del", "list", "fold", "iter", "stat", "sync", "batch", "merge"}
+		w := make([]int, len(kinds))
+		for i := range w {
+			if rng.Chance(0.75) {
+				w[i] = rng.Range(1, 6)
+			}
+		}
+		w[0] += 3
+		c.Clients = make([][]Op, n)
+		for ci := range c.Clients {
+			m := rng.Range(2, 7)
+			for j := 0; j < m; j++ {
+				k := keys[rng.Intn(len(keys))]
+				kind := kinds[rng.Pick(w)]
+				op := Op{K: kind}
+				switch kind {
+				case "put":
+					op.Key, op.Val = k, smallVal(rng, &tag)
+				case "get", "del":
+					op.Key = k
+				case "iter":
+					op.Flag = rng.Chance(0.5)
+					op.N = rng.Intn(2)
+				case "batch":
+					op.Flag = rng.Chance(0.2)
+					for b := 0; b < rng.Range(1, 4); b++ {
+						bk := keys[rng.Intn(len(keys))]
+						switch rng.Intn(3) {
+						case 0:
+							op.Sub = append(op.Sub, Op{K: "bdel", Key: bk})
+						case 1:
+							op.Sub = append(op.Sub, Op{K: "bget", Key: bk})
+						default:
+							op.Sub = append(op.Sub, Op{K: "bput", Key: bk, Val: smallVal(rng, &tag)})
+						}
+					}
+				}
+				c.Clients[ci] = append(c.Clients[ci], op)
+			}
+		}
+		return nil
+	}
+}
+
+// partitionedWriters generates nw writer programs with one writer per key.
+func partitionedWriters(rng *vrt.Rand, keys [][]byte, nw int, tag *uint32, maxOps int) [][]Op {
+	out := make([][]Op, nw)
+	for ki, k := range keys {
+		w := ki % nw
+		m := rng.Range(1, maxOps)
+		for j := 0; j < m; j++ {
+			if rng.Chance(0.7) {
+				out[w] = append(out[w], Op{K: "put", Key: k, Val: smallVal(rng, tag)})
+			} else {
+				out[w] = append(out[w], Op{K: "del", Key: k})
+			}
+			if rng.Chance(0.2) {
+				out[w] = append(out[w], Op{K: "get", Key: k})
+			}
+		}
+	}
+	for w := range out {
+		rng2 := vrt.NewRand(rng.Uint64())
+		p := rng2.Perm(len(out[w]))
+		// keep per-key order: shuffle only across keys by a stable merge
+		_ = p
+	}
+	return out
+}
+
+// withConcArm wraps a sequential generator: a share of the runs uses the concurrent arm instead.
+func withConcArm(prop string, share float64, conc func(c *Case, rng *vrt.Rand, tier string)) {
+	seq := generators[prop]
+	generators[prop] = func(c *Case, rng *vrt.Rand, tier string) func(r *Runner, i int) *Op {
+		if rng.Chance(share) {
+			c.Arm = "conc"
+			c.Sched = genPolicy(rng)
+			conc(c, rng, tier)
+			return nil
+		}
+		return seq(c, rng, tier)
+	}
+}
+
+func init() {
+	// C06(b): a merger concurrent with writers, one writer per key
+	withConcArm("C06", 0.35, func(c *Case, rng *vrt.Rand, tier string) {
+		c.Cfg = concConfig(rng)
+		var tag uint32
+		keys := genKeys(rng, rng.Range(2, 6))
+		c.Setup = nil
+		for _, k := range keys { // a history worth merging
+			for j := 0; j < rng.Range(1, 3); j++ {
+				c.Setup = append(c.Setup, Op{K: "put", Key: k, Val: smallVal(rng, &tag)})
+			}
+			if rng.Chance(0.2) {
+				c.Setup = append(c.Setup, Op{K: "del", Key: k})
+			}
+		}
+		c.Clients = partitionedWriters(rng, keys, rng.Range(1, 3), &tag, 4)
+		c.Clients = append(c.Clients, []Op{{K: "merge"}})
+		if rng.Chance(0.2) {
+			c.Clients = append(c.Clients, []Op{{K: "merge"}})
+		}
+	})
+	// C05(b): one client holds a batch open, the others use the database
+	withConcArm("C05", 0.25, func(c *Case, rng *vrt.Rand, tier string) {
+		c.Cfg = concConfig(rng)
+		var tag uint32
+		keys := genKeys(rng, rng.Range(2, 5))
+		c.Setup = genSetup(rng, keys, &tag)
+		nw := rng.Range(1, 2)
+		c.Clients = partitionedWriters(rng, keys[1:], nw, &tag, 3)
+		// the batch holder owns keys[0] and reads everybody's keys
+		var holder []Op
+		for b := 0; b < rng.Range(1, 2); b++ {
+			op := Op{K: "batch"}
+			for j := 0; j < rng.Range(2, 8); j++ {
+				k := keys[rng.Intn(len(keys))]
+				switch rng.Intn(5) {
+				case 0:
+					op.Sub = append(op.Sub, Op{K: "bput", Key: keys[0], Val: smallVal(rng, &tag)})
+				case 1:
+					op.Sub = append(op.Sub, Op{K: "yield"})
+				default:
+					op.Sub = append(op.Sub, Op{K: "bget", Key: k})
+				}
+			}
+			holder = append(holder, op)
+		}
+		c.Clients = append(c.Clients, holder)
+	})
+	// C10(b): an iterator session concurrent with writers
+	withConcArm("C10", 0.3, func(c *Case, rng *vrt.Rand, tier string) {
+		c.Cfg = concConfig(rng)
+		c.Cfg.Index = int8(rng.Range(1, 3))
+		var tag uint32
+		keys := genKeys(rng, rng.Range(2, 10))
+		c.Setup = genSetup(rng, keys, &tag)
+		c.Clients = partitionedWriters(rng, keys, rng.Range(1, 2), &tag, 3)
+		var sess []Op
+		for s := 0; s < rng.Range(1, 3); s++ {
+			op := Op{K: "iter", Flag: rng.Chance(0.5), N: rng.Range(0, 2)}
+			if rng.Chance(0.3) {
+				k := keys[rng.Intn(len(keys))]
+				op.Key = Bytes(k[:rng.Range(1, len(k))])
+			}
+			sess = append(sess, op)
+		}
+		c.Clients = append(c.Clients, sess)
+	})
+	// C20(b): a backup concurrent with writers
+	withConcArm("C20", 0.3, func(c *Case, rng *vrt.Rand, tier string) {
+		c.Cfg = concConfig(rng)
+		c.Cfg.IO = byte(rng.Intn(2))
+		var tag uint32
+		keys := genKeys(rng, rng.Range(2, 6))
+		c.Setup = genSetup(rng, keys, &tag)
+		c.Clients = partitionedWriters(rng, keys, rng.Range(1, 3), &tag, 4)
+		var bk []Op
+		for b := 0; b < rng.Range(1, 2); b++ {
+			bk = append(bk, Op{K: "backup", N: b + 1})
+		}
+		c.Clients = append(c.Clients, bk)
+	})
+}
